@@ -118,6 +118,29 @@ class NamePool:
         assert name_ok(name), (len(name), name)
         return name
 
+    def near_octet_limit(self) -> str:
+        """A name with non-ASCII text whose wire form is exactly 253, 254 or 255 octets (the RFC 1035 maximum) while its
+        character count stays far below 253."""
+        rng = self.rng
+        suffix = rng.choice(["local.", "_tcp.local."])
+        target = rng.choice([253, 254, 255, 255])
+        wire = sum(utf8len(l) + 1 for l in suffix[:-1].split(".")) + 1
+        labels: List[str] = []
+        alpha = rng.choice(["é", "éü" + ASCII[:3], "日本" + ASCII[:2], "\U0001F600" + ASCII[:2]])
+        while wire < target:
+            room = target - wire - 1            # bytes available for the next label
+            if room <= 0:
+                break
+            ln = min(63, room)
+            if room - ln == 1:                  # would leave room for a length byte only
+                ln -= 1
+            if ln <= 0:
+                break
+            labels.append(make_label(rng, ln, alpha))
+            wire += ln + 1
+        name = ".".join(labels) + "." + suffix
+        return name if name_ok(name) else "x.local."
+
     def many_labels(self) -> str:
         """A legal name made of very many short labels (up to 126 of them: 253 characters allow no more)."""
         rng = self.rng
@@ -166,6 +189,8 @@ class NamePool:
             n = self.near_limit()
         elif r < 0.66:
             n = self.many_labels()
+        elif r < 0.69:
+            n = self.near_octet_limit()
         else:
             n = self.fresh()
         if n not in self.names:
